@@ -33,6 +33,7 @@ Lemma sys_read_reg o n : regok o -> regok (fst (sys_read o n)).
 Proof.
   intros H. unfold sys_read.
   destruct (o_closed o || _); [exact H|].
+  destruct (match o_kind o with KDead => true | _ => false end); [exact H|].
   destruct (match o_kind o with KLsn => true | _ => false end); [destruct (0 <? e_rq o); [apply (regok_bits o); auto|exact H]|].
   destruct (0 <? e_rq o); [apply (regok_bits o); auto|].
   destruct (e_rst o); [apply (regok_bits o); auto|].
@@ -205,7 +206,7 @@ Proof.
   - exact H1.
   - change (l_objs s1) with (l_objs s). destruct (lookup i (l_objs s)) as [ob|] eqn:Hl; [|exact H1].
     apply reg_set_obj; [exact H1|]. pose proof (objs_lookup regok _ _ _ Hi Hl) as Ho.
-    destruct p; [| destruct (o_kind ob) | |]; try exact Ho; apply (regok_bits ob); auto.
+    destruct p; [| destruct (o_kind ob) | | |]; try exact Ho; apply (regok_bits ob); auto.
   - exact H1.
   - apply exec_reg. exact H1.
   - apply exec_reg. exact H1.
